@@ -1,5 +1,49 @@
-import XlVerif.Base
-/-! Driver for C19 (stub: replaced when the property's model is built). -/
+import XlVerif.Model.C19
+import XlVerif.Spec.C19
+/-! Driver for C19: `C19 <NAME> <number> <places | ->` →
+    `impl=<value | E:CODE | X:Exception>  spec=<value | E:CODE | ANYERR | SILENT>`.
+    `-` for places means the argument is omitted.
+    `C19 TABLES` → a behavioural digest of the generated tables (cross-check of the translator). -/
 namespace XlVerif.Drv.C19
-def handle (_fields : List String) : String := "error=not-implemented"
+open XlVerif XlVerif.Model.C19
+
+def showRes : Res S → String
+  | .ok v => v.wire
+  | .err c => "E:" ++ c.wire
+  | .crash k => "X:" ++ k.wire
+
+def showWant : Spec.C19.Want → String
+  | .val v => v.wire
+  | .err c => "E:" ++ c.wire
+  | .anyErr => "ANYERR"
+  | .silent => "SILENT"
+
+def baseName : Gen.C19Eng.EBase → String
+  | .bin => "bin" | .oct => "oct" | .dec => "dec" | .hex => "hex"
+
+def tables : String :=
+  let pd := Gen.C19Eng.permittedDigits.map fun (b, cs) => baseName b ++ ":" ++ String.ofList cs
+  let bw := Gen.C19Eng.bitWidths.map fun (b, w) => baseName b ++ ":" ++ toString w
+  let bn := Gen.C19Eng.baseNumbers.map fun (b, w) => baseName b ++ ":" ++ toString w
+  let bd := Gen.C19Eng.bounds.map fun (a, b, w) => baseName a ++ "+" ++ baseName b ++ ":" ++ toString w
+  let wr := Gen.C19Eng.wrappers.map fun (n, o, d, p) =>
+    String.ofList n ++ ":" ++ baseName o ++ ">" ++ baseName d ++ (if p then "+p" else "")
+  kv [("digits", ",".intercalate pd), ("widths", ",".intercalate bw), ("bases", ",".intercalate bn),
+      ("bounds", ",".intercalate bd), ("wrappers", ",".intercalate wr)]
+
+def handle (fields : List String) : String :=
+  match fields with
+  | ["TABLES"] => tables
+  | [fn, number, places] =>
+    match S.ofWire? number with
+    | none => "error=bad-number"
+    | some n =>
+      let pl : Option (Option S) :=
+        if places == "-" then some none else (S.ofWire? places).map some
+      match pl with
+      | none => "error=bad-places"
+      | some p =>
+        kv [("impl", showRes (call fn.toList n p)), ("spec", showWant (Spec.C19.want fn.toList n p))]
+  | _ => "error=bad-request"
+
 end XlVerif.Drv.C19
